@@ -529,6 +529,7 @@ func (c *Chunker) buildSections(doc *model.Document) []*Section {
 
 		// Process headings on this page
 		for _, heading := range page.Layout.Headings {
+			heading := heading // each section keeps a pointer to its own heading
 			// If we have content before this heading, add it
 			if len(preambleContent) > 0 && len(sectionStack) == 0 {
 				// Content before first heading
@@ -629,6 +630,7 @@ func (c *Chunker) buildSections(doc *model.Document) []*Section {
 
 		// Add lists to current section
 		for _, list := range page.Layout.Lists {
+			list := list // each element keeps a pointer to its own list
 			elem := ContentElement{
 				Type:     model.ElementTypeList,
 				Text:     formatList(list),
@@ -1115,6 +1117,7 @@ func (c *Chunker) chunkByParagraphs(doc *model.Document, chunkIndex *int) []*Chu
 		}
 
 		for _, list := range page.Layout.Lists {
+			list := list // each element keeps a pointer to its own list
 			section.Content = append(section.Content, ContentElement{
 				Type:     model.ElementTypeList,
 				Text:     formatList(list),
